@@ -284,3 +284,56 @@ def run(ck, prog, ctx):
     ck.rule("SIBLING", "an iterator wrapper's next / next_back / len / size_hint delegates to the same method of the inner iterator (DESIGN 3.15)")
     from engines import check_iterator_delegations
     check_iterator_delegations(ck, "SIBLING", prog, r"^src/matrix\.rs$")
+
+    # ------------------------------------------------------------------ FORMULA: the three combinations
+    ck.rule("FORMULA", "the result of each combiner, extracted as an expression over (sum of row maxima, sum of column maxima, rows, cols) and normalised to a "
+                       "quotient of polynomials (max opaque, commutative), equals the documented combination")
+    from expr import Extract, S, C, F, add, div, show, unknowns
+    from expr import equal as expr_equal
+    pv_ni = Prov(prog, inline=False)
+
+    def leaf(ex, body, kind, obj):
+        if kind == "call":
+            t = obj
+            if t.callee.trait == "std::iter::Iterator" and t.callee.method == "sum" and len(t.args) == 1:
+                names = {a[1].rsplit("::", 1)[-1] for a in pv_ni.of_operand(body, t.args[0]) if a[0] == "call" and a[1].rsplit("::", 1)[-1] in ("row_maxes", "col_maxes")}
+                if len(names) == 1:
+                    return S("sum(%s)" % next(iter(names)))
+                return None
+            r = t.callee.res or t.callee.name or ""
+            if r.endswith("usize_to_f32") and len(t.args) == 1:
+                return ex.operand(body, t.args[0], 0, getattr(ex, "_at", None))
+        if kind == "place":
+            pl = obj
+            fs = [e for e in pl.fields() if e != "*"]
+            if len(fs) == 1 and fs[0][0] == "f" and fs[0][1] in ("0", "1"):
+                src = {a[1].rsplit("::", 1)[-1] for a in pv_ni.of_local(body, pl.local) if a[0] == "call"}
+                if "dim_f32" in src or "dim" in src:
+                    return S("rows" if fs[0][1] == "0" else "cols")
+        return None
+    EX = Extract(prog, pv, leaf)
+    SR, SCm, R, Cc = S("sum(row_maxes)"), S("sum(col_maxes)"), S("rows"), S("cols")
+    FORMS = [
+        ("fun_sim_avg", div(add(div(SR, R), div(SCm, Cc)), C(2)), "(mean of row maxima + mean of column maxima) / 2"),
+        ("fun_sim_max", F("max", div(SR, R), div(SCm, Cc)), "max(mean of row maxima, mean of column maxima)"),
+        ("bma", div(add(SR, SCm), add(R, Cc)), "(sum of row maxima + sum of column maxima) / (rows + cols)"),
+    ]
+    n_f = 0
+    for name, want, text in FORMS:
+        fb = prog.one(r"^similarity::StandardCombiner::%s$" % name)
+        if fb is None:
+            ck.undecided("FORMULA", name, "private helper StandardCombiner::%s not found" % name)
+            continue
+        rets = []
+        for kind, pos, d in pv.defs(fb).get(0, []):
+            e = EX.rvalue(fb, d, 0, pos) if kind == "assign" else EX.call(fb, d, 0, pos)
+            rets.append((d.line, e))
+        for i, (ln_, e) in enumerate(rets):
+            eq = expr_equal(e, want)
+            key = name if i == 0 else "%s/%d" % (name, i)
+            if eq is None:
+                ck.undecided("FORMULA", key, "%s: result expression %s has leaves that are not recognised (%s)" % (name, show(e), "; ".join(unknowns(e)[:2])), where=fb.where(ln_))
+            else:
+                n_f += 1
+                ck.ob("FORMULA", key, eq, "%s returns %s %s the documented %s" % (name, show(e), "=" if eq else "which is NOT algebraically equal to", text), where=fb.where(ln_))
+    ck.floor("FORMULA", "combiner formulas decided", n_f, 3)
